@@ -74,6 +74,10 @@ def qapsplit():
     """
     global eqs, blocks
 
+    # (the equation file is read from the start every time: forget what an earlier prove() in this process collected)
+    eqs = dict()
+    blocks = dict()
+
     fns = dict()
     extblocks = set()
 
